@@ -1,4 +1,25 @@
-"""C07 — interpolate / gridding implement the documented kernel sums (sigpy/interp.py, linop.Interpolate/Gridding)."""
+"""C07 — interpolate / gridding implement the documented kernel sums (sigpy/interp.py, linop.Interpolate/Gridding).
+
+What is tied to the source how:
+  translator-generated (regenerated from /repo on every run; theorems are stated about these definitions)
+    Gen.Interp          the six numba loop nests `_interpolate1..3` / `_gridding1..3`
+    Gen.InterpKernels   `_spline_kernel`, the kernel-name binding of `_get_interpolate` / `_get_gridding`
+    Gen.InterpWrappers  the Python wrappers `interpolate` / `gridding`, statement by statement: `ndim`, `batch_shape`,
+                        `batch_size`, `pts_shape`, `npts`, the reshapes of input / coord / output, the `np.isscalar`
+                        broadcasting of `width` / `param`, the dispatch `TABLE[kernel][ndim - 1]` incl. the tuple returned by
+                        `_get_interpolate` / `_get_gridding`, the argument order of the kernel call, gridding's `shape`
+  proved (Props/C07.lean, Props/C07Wrap.lean)
+    window / weights / wrap / axis pairing / `+=` of the loop nests (`interpD_mem`, ...), gridding = transpose;
+    `interpolateW_spec`, `griddingW_spec`, `wrapper_spec`, `gridding_wrapper_spec`: the generated wrappers run the
+    D-dimensional loop nest on the flattened batch / flattened points with width / param broadcast and return shape
+    `batch ++ pts` / `shape`;  `applyUpd_eq_runUpd` (+ `_eq_sum`, `_eq_none_iff`, `applyC_eq_runUpd`): the executable
+    array application the driver runs equals the function-level semantics `runUpd` the value theorems are about;
+    `interpolate_value_spec` / `gridding_value_spec`: output[batch..., pts...] is the per-destination sum over the
+    loop nest's updates
+  validated by correspondence only
+    float rounding, the Kaiser-Bessel kernel values, numba's compilation of the loop nests, numpy's reshape keeping
+    row-major data (the Python list semantics the generated wrappers are written in is Model/C07Py.lean)
+"""
 import itertools
 import json
 import math
@@ -10,18 +31,28 @@ from harness import common
 from harness.translate import gen as G
 
 PROPERTY = "C07"
-LEAN_MODULES = ["SigpyVerif.Props.C07"]
+LEAN_MODULES = ["SigpyVerif.Props.C07", "SigpyVerif.Props.C07Wrap"]
 THEOREMS = ["SigpyVerif.C07." + t for t in [
     "window_iff_abs", "interp1_mem", "interp2_mem", "interp3_mem", "interp1_in_bounds",
     "grid1_eq_transpose_interp1", "grid2_eq_transpose_interp2", "grid3_eq_transpose_interp3", "grid1_mem",
     "kernels_accumulate", "kernel_dispatch", "runUpd_acc_eq_sum", "sum_mul_runUpd", "transpose_pairing",
     "interp1_shift_period", "interp2_shift_period", "interp3_shift_period",
     "spline_kernel_doc", "spline2_breakpoint",
+    # Props/C07Wrap.lean: the generated wrappers and the array machinery
+    "interpolateW_spec", "griddingW_spec", "dispatch_tables", "wrapper_spec", "gridding_wrapper_spec",
+    "applyUpd_eq_runUpd", "applyUpd_eq_runG", "applyUpd_eq_none_iff", "applyUpd_eq_sum", "applyC_eq_runUpd",
+    "gridNest_eq_transpose", "interpNest_in_bounds", "ravel_batch_flatten",
+    "interpolate_value_spec", "gridding_value_spec",
+    "interp1_filter_dst", "interp2_filter_dst", "interp3_filter_dst", "interpolate1_value_explicit",
+    "filter_flatMap_unique",
+    # Lemmas/C07Apply.lean, Lemmas/C07Wrap.lean
+    "inBounds_iff_mem_allIdx", "ravel_toNat_inj", "ravel_append", "foldlM_applyStep", "foldlM_applyStep_none",
+    "pyGet?_append_last", "pySliceTo_append_neg", "pySliceFrom_append_neg", "pySliceTo_append_last", "pyRepeat_singleton",
 ]]
 
 
 def translate(ctx):
-    G.regenerate(ctx, ["Interp", "InterpKernels"])
+    G.regenerate(ctx, ["Interp", "InterpKernels", "InterpWrappers"])
 
 
 # ---- rationals / protocol -----------------------------------------------------------------------
@@ -475,9 +506,18 @@ def correspond(ctx):
     ctx.oblige("correspondence:C07.spline-kernel", "correspondence", bad == 0,
                "%d disagreements Gen.splineKernel vs _spline_kernel" % bad)
     ctx.traces = ctx.evaluations
+    ctx.trusted += [
+        "harness/translate/gen_c07.py InterpWrappers: statement-by-statement translation of interpolate/gridding "
+        "(anything outside its subset is a broken obligation); py2lean Kernel/formula for the loop nests",
+        "Model/C07Py.lean: Python semantics of l[k], l[:k], l[k:], l * n, reshape legality, row-major a[i, j] "
+        "in which the generated wrappers are written (exercised by the correspondence streams)",
+    ]
     ctx.assumptions += [
-        "Python wrappers interpolate/gridding (batch flattening, width/param broadcasting, reshape) are modelled by hand "
-        "(Model/C07.lean) and validated by the correspondence streams, not proved",
+        "Python wrappers interpolate/gridding are translator-generated (Gen.InterpWrappers) and proved to run the D-dimensional "
+        "loop nest on the flattened problem (wrapper_spec, gridding_wrapper_spec, *_value_spec); modelled by hand: the Python "
+        "list/slice/reshape semantics they are written in (Model/C07Py.lean), the numpy backend branch `xp == np` only, the "
+        "domain guard 1 <= ndim <= 3, ndim <= rank (Model/C07.lean)",
+        "numpy reshape of a C-contiguous array keeps the row-major flat data; xp.zeros gives a zero-initialised buffer",
         "float64 rounding of coordinates/weights is not modelled: exact streams use dyadic data where float arithmetic is exact",
         "Kaiser-Bessel kernel has no Rat model: its values are measured against scipy.special.i0 by the search oracle (2e-7 relative per factor)",
         "numba compiles the Python loop nests faithfully (range over float bounds truncates integral floats)",
